@@ -160,8 +160,11 @@ def tls_part(ctx, binary):
             elif kind == "caller-mutated":
                 key = "tls-caller-config-mutated"
                 what = "the caller's tls.Config was modified (InsecureSkipVerify / ServerName differ after session setup)"
+            elif kind == "sni-not-the-host-name":
+                key = "tls-sni-host=%s" % i["host"]
+                what = "the verifying client announced SNI %r for host %s (dialled at %s)" % (v["sni"], v["hostname"], v["dialaddr"])
             else:  # handshake-*
-                srv = kind.split("-", 1)[1]
+                srv = kind.split("-", 1)[1].replace("hostcert-second-host", "hostcert2")
                 key = "tls-%s-config=%s-hostverification=%s-snset=%s-trust=%s" % (
                     kind, doc_column(i), str(i["hv"]).lower(), str(i["snset"]).lower(),
                     str(i["ca"] == "valid" or i["uroots"]).lower())
